@@ -18,6 +18,11 @@ def run_body(ex, n, st):
     return cont, leave
 
 
+def _stored(nodes):
+    """names assigned anywhere in these statements (loop-carried candidates): havocked at a loop cut whether or not the sidecar lists them"""
+    return _names(nodes, ast.Store)
+
+
 def _names(nodes, ctx=None):
     out = set()
     for nd in nodes:
@@ -95,7 +100,8 @@ def cut_for(ex, n, st, sp):
     xs = sp['seq']; nm = sp.get('name', 'loop@%d' % n.lineno)
     ex.obligations.append((nm + '/inv_at_entry', st.copy(), sp['inv'](st, z3.Empty(xs.sort())), ('normal',)))
     it = st.copy(); done = fresh('done', xs.sort()); rem = fresh('rem', xs.sort())
-    for v in sp.get('havoc', []):
+    hv = sorted(set(sp.get('havoc', [])) | {k for k in _stored(n.body) if st.lookup(k) is not None})
+    for v in hv:
         it.setvar(v, fresh('h_' + v))
     sp.get('havoc_state', lambda s: None)(it)
     it.assume(z3.Concat(done, rem) == xs); it.assume(z3.Length(rem) > 0); it.assume(sp['inv'](it, done))
@@ -111,7 +117,7 @@ def cut_for(ex, n, st, sp):
             ex.obligations += [(nm + '/' + a + '.on_exit', s1, c, oc) for a, c in sp.get('per_iteration_exit', lambda s, d, x, oc: [])(s1, done, x, oc)]
             outs.append((s1, oc))
     ex_ = st.copy()
-    for v in sp.get('havoc', []):
+    for v in hv:
         ex_.setvar(v, fresh('h_' + v))
     sp.get('havoc_state', lambda s: None)(ex_)
     ex_.assume(sp['inv'](ex_, xs)); ex_.g['loop_exhausted'] = True
@@ -130,7 +136,7 @@ def do_while(ex, n, st):
     ex.obligations.append((nm + '/inv_at_entry', st.copy(), sp['inv'](st), ('normal',)))
     outs = []
     h = st.copy()
-    for v in sp.get('havoc', []):
+    for v in sorted(set(sp.get('havoc', [])) | {k for k in _stored(n.body) if h.lookup(k) is not None}):
         h.setvar(v, fresh('h_' + v))
     sp.get('havoc_state', lambda s: None)(h); h.assume(sp['inv'](h))
     variant0 = sp['variant'](h) if 'variant' in sp else None
